@@ -30,9 +30,27 @@ def const_bool(op):
 class FlagInfo:
     """bool locals that are only assigned constants and never borrowed"""
 
-    def __init__(self, body, cfg):
+    def __init__(self, body, cfg, adts=None):
         cand = {i for i, l in enumerate(body.locals) if l["ty"] == "bool" and i > body.arg_count}
+        # a private two-variant enum without data standing for a bool (`enum Decision { Notify,
+        # Skip }`): the variant the local starts with reads as `true`
+        two = {a for a, d in (adts or {}).items() if d.get("kind") == "Enum" and len(d.get("variants", ())) == 2 and all(not v["fields"] for v in d["variants"])}
+        ecand = {i for i, l in enumerate(body.locals) if l["ty"] in two and i > body.arg_count}
+        self.enum_true = {}
+        ewrites = {}
         bad = set()
+        # `flag = Enum::V` goes through a temporary: single-definition locals holding a variant
+        ndefs = {}
+        for bi in cfg.nodes():
+            for s in body.blocks[bi]["stmts"]:
+                if s["k"] == "assign" and not s["place"]["p"]:
+                    ndefs.setdefault(s["place"]["l"], []).append(s["rv"])
+            t = body.blocks[bi]["term"]
+            if t["k"] == "call" and not t["dest"]["p"]:
+                ndefs.setdefault(t["dest"]["l"], []).append(None)
+        self._vtemps = {l: rvs[0]["vi"] for l, rvs in ndefs.items() if l in ecand and len(rvs) == 1 and rvs[0] is not None
+                        and rvs[0]["k"] == "agg" and rvs[0].get("agg") == "adt" and not rvs[0].get("ops") and rvs[0].get("vi") is not None}
+        ecand -= set(self._vtemps)
         for bi in cfg.nodes():
             b = body.blocks[bi]
             for s in b["stmts"]:
@@ -43,12 +61,23 @@ class FlagInfo:
                 if p["l"] in cand:
                     if p["p"] or rv["k"] != "use" or const_bool(rv["op"]) is None:
                         bad.add(p["l"])
-                if rv["k"] in ("ref", "rawptr") and rv["place"]["l"] in cand:
+                if p["l"] in ecand:
+                    vi = self._variant_written(rv)
+                    if p["p"] or vi is None:
+                        bad.add(p["l"])
+                    else:
+                        ewrites.setdefault(p["l"], []).append((cfg.in_cycle(bi), bi, vi))
+                if rv["k"] in ("ref", "rawptr") and rv["place"]["l"] in (cand | ecand):
                     bad.add(rv["place"]["l"])
             t = b["term"]
-            if t["k"] == "call" and not t["dest"]["p"] and t["dest"]["l"] in cand:
+            if t["k"] == "call" and not t["dest"]["p"] and t["dest"]["l"] in (cand | ecand):
                 bad.add(t["dest"]["l"])
-        self.flags = cand - bad
+        for l_ in sorted(ecand - bad):
+            ws = ewrites.get(l_, [])
+            if len({w[2] for w in ws}) == 2 and l_ in getattr(body, "names", {l_: 1}):
+                # starts with: the assignment outside loops (else the first one)
+                self.enum_true[l_] = sorted(ws)[0][2]
+        self.flags = (cand - bad) | set(self.enum_true)
         # copies:  _x = copy/move _flag   |  _x = Not(_flag)   (single def temps)
         self.copy_of = {}
         defs = {}
@@ -59,6 +88,15 @@ class FlagInfo:
             t = body.blocks[bi]["term"]
             if t["k"] == "call" and not t["dest"]["p"]:
                 defs.setdefault(t["dest"]["l"], []).append(None)
+        # the same statement duplicated by jump threading is one definition
+        import json as _json
+        for l_, rvs in list(defs.items()):
+            if len(rvs) > 1 and all(rv is not None for rv in rvs):
+                uniq = {}
+                for rv in rvs:
+                    uniq.setdefault(_json.dumps(rv, sort_keys=True), rv)
+                if len(uniq) < len(rvs):
+                    defs[l_] = list(uniq.values())
         self._defs = defs
         self._close_copies()
         # a bool that is, on every path, either a copy of one flag or that flag's initial constant
@@ -75,6 +113,8 @@ class FlagInfo:
                         cs.append(const_bool(s_["rv"]["op"]))
             if len(cs) == 1 and cs[0] is not None:
                 init[f_] = cs[0]
+            if f_ in self.enum_true:
+                init[f_] = True
         changed = True
         while changed:
             changed = False
@@ -140,6 +180,14 @@ class FlagInfo:
                     src, neg = rv["op"]["place"]["l"], False
                 elif rv["k"] == "unop" and rv["op"] == "Not" and rv["a"]["k"] in ("copy", "move") and not rv["a"]["place"]["p"]:
                     src, neg = rv["a"]["place"]["l"], True
+                elif rv["k"] == "discr" and not rv["place"]["p"]:
+                    # discriminant of an enum flag (or a copy of it): 0 reads as false unless
+                    # variant 0 is the one that stands for `true`
+                    src = rv["place"]["l"]
+                    root = src if src in self.enum_true else (self.copy_of.get(src) or (None,))[0]
+                    if root not in self.enum_true:
+                        continue
+                    neg = self.enum_true[root] == 0
                 if src is None:
                     continue
                 if src in self.flags:
@@ -149,6 +197,30 @@ class FlagInfo:
                     r0, n0 = self.copy_of[src]
                     self.copy_of[l] = (r0, n0 != neg)
                     changed = True
+
+    def _variant_written(self, rv):
+        if rv["k"] == "agg" and rv.get("agg") == "adt" and not rv.get("ops") and rv.get("vi") is not None:
+            return rv["vi"]
+        if rv["k"] == "use" and rv["op"]["k"] in ("copy", "move") and not rv["op"]["place"]["p"]:
+            return self._vtemps.get(rv["op"]["place"]["l"])
+        return None
+
+    def written_value(self, st):
+        """(flag local, bool) if the statement assigns a constant to a flag"""
+        if st["k"] != "assign" or st["place"]["p"] or st["place"]["l"] not in self.flags:
+            return None
+        l = st["place"]["l"]
+        rv = st["rv"]
+        if l in self.enum_true:
+            vi = self._variant_written(rv)
+            if vi is not None:
+                return (l, vi == self.enum_true[l])
+            return None
+        if rv["k"] == "use":
+            v = const_bool(rv["op"])
+            if v is not None:
+                return (l, v)
+        return None
 
     def switch_flag(self, term):
         """(flag local, negated) if the switch tests a flag"""
@@ -167,7 +239,7 @@ class LockRegions:
         self.body = body
         self.bp = prog.bp(body)
         self.cfg = self.bp.cfg
-        self.flags = FlagInfo(body, self.cfg)
+        self.flags = FlagInfo(body, self.cfg, getattr(getattr(prog, "facts", None), "adts", None))
         self.lock_id_fn = lock_id_fn or default_lock_id
         self.acquires = []  # (bb, lock_id, kind)
         self._in = None
@@ -210,7 +282,7 @@ class LockRegions:
             p = s["place"]
             rv = s["rv"]
             if not p["p"] and p["l"] in self.flags.flags:
-                v = const_bool(rv["op"])
+                v = self.flags.written_value(s)[1]
                 flags = frozenset((l, b) for (l, b) in flags if l != p["l"]) | {(p["l"], v)}
                 return (flags, holders)
             # guard moves:  _a = move _b ; _a = move (_b as Ok).0 ; _a = move (_b as Err).0
